@@ -48,7 +48,8 @@ def validate(d: Path) -> dict:
             return res
         r = sh(f"{PY} -m pytest -q -p no:cacheprovider -x tests 2>&1 | tail -3", cwd=wt, env=env)
         res["suite_tail"] = r.stdout.strip()[-200:]
-        res["suite_passes"] = " passed" in r.stdout and "failed" not in r.stdout and "error" not in r.stdout.lower()
+        import re as _re
+        res["suite_passes"] = bool(_re.search(r"\b\d+ passed", r.stdout)) and not _re.search(r"\b\d+ (failed|error)", r.stdout)
         r = sh(f"{PY} {d / 'demo.py'}", cwd=wt, env=env)
         res["demo_mutant_fails"] = r.returncode != 0
         res["demo_mutant_tail"] = (r.stdout + r.stderr)[-300:]
@@ -98,6 +99,44 @@ def main():
                 res[d.name] = run(d, tier)
         print(json.dumps(res, indent=1))
     return 0
+
+
+
+
+def import_(name: str, prop: str, breaks: str, needs: str):
+    """tools/seeded.py import <name> <prop> <breaks> <needs>: copy from /tmp/mut-out, validate, write meta.json."""
+    import shutil
+
+    src = Path("/tmp/mut-out") / name
+    dst = V / "seeded" / name
+    dst.mkdir(parents=True, exist_ok=True)
+    for f in ("patch.diff", "demo.py", "notes.md"):
+        if (src / f).exists():
+            shutil.copy(src / f, dst / f)
+    val = validate(dst)
+    ok = val.get("applies") and val.get("suite_passes") and val.get("demo_mutant_fails") and val.get("demo_clean_passes")
+    meta = {
+        "property": prop,
+        "breaks": breaks,
+        "needs_to_manifest": needs,
+        "origin": "fresh sub-agent given only the property text and a scratch worktree of /repo",
+        "confirmed": {
+            "patch_applies_to_repo_HEAD": val.get("applies"),
+            "repo_test_suite_passes_with_patch": val.get("suite_passes"),
+            "suite_tail": val.get("suite_tail"),
+            "demo_fails_with_patch": val.get("demo_mutant_fails"),
+            "demo_passes_on_clean_tree": val.get("demo_clean_passes"),
+            "how": "tools/seeded.py validate (throw-away worktree of /repo HEAD, removed afterwards)",
+        },
+        "kept": bool(ok),
+    }
+    (dst / "meta.json").write_text(json.dumps(meta, indent=1) + "\n")
+    print(name, "kept" if ok else f"NOT CONFIRMED: {val}")
+
+
+if __name__ == "__main__" and len(sys.argv) > 1 and sys.argv[1] == "import":
+    import_(*sys.argv[2:6])
+    sys.exit(0)
 
 
 if __name__ == "__main__":
